@@ -240,6 +240,7 @@ def call_function(fr, qual, args, kw, extra, n, nself=0):
         return res
     sub = SE.Frame(ctx, fn, bound, depth=fr.depth + 1, pc=fr.pc, loops=fr.loops)
     sub.perm = list(fr.perm)
+    sub.ret_perm = list(fr.ret_perm)
     ctx.inlined.add(qual)
     ev['inlined'] = True                       # the callee's own calls follow in the trace; rules about 'the first call' skip this event
     res = sub.run()
